@@ -7,6 +7,16 @@ HERE = os.path.dirname(os.path.dirname(os.path.abspath(__file__)))
 SCOPE_NOTE = "quick: all 818 976 grammars of G(2,2,3,3) (2 nonterminals, 2 terminals, <=3 productions of length <=3; unreachable, unproductive, nullable, cyclic, ambiguous ones included) plus the 1-edit neighbourhoods of 11 seed grammars (LALR-not-SLR, LR(1)-not-LALR, dangling else, expression grammars, ...); thorough adds G(2,3,4,2), G(3,2,4,2), G(2,2,4,3)/sym, G(1,3,4,3), G(3,3,3,2)/sym and 2-edit neighbourhoods. Every grammar is rendered under a rotating presentation (struct/enum, named/tuple, `_` fields, declaration order, naming order)."
 REAL_NOTE = "Real-code layer: every accepted grammar of G(2,2,3,2)/sym (quick; thorough: G(2,2,3,2), G(1,2,3,3), G(2,2,2,3), G(2,3,3,2), G(3,2,3,2), 1-edit neighbourhoods of the seeds) is emitted by the real generate, compiled by rustc and its real parse is run on every word of the input trie (depth 7 for 2 terminals) through a lazy counting iterator, a constant-payload iterator and a Vec, under catch_unwind with a time limit. Model layer: an interpreter of the tables and reduce-function facts extracted from the emitted text explores all configurations over the tries of every accepted grammar of the C04 scopes in lock-step with the reference LR(1) driver and Earley; it is bound to the code by comparing its trace with the real observation on every (grammar, word) of the real-code scope; if it diverges or cannot be extracted it is declared unbound and only the real layer decides."
 CHECKS = {
+ "C05": ("E3 rustc compile-only", "exploration",
+         "bounded-exhaustive exploration of the naming space by deviation from a conventional naming; rustc --emit=metadata decides",
+         "Every (role, name) pair (deviation 1, quick) and every pair of such assignments over the curated pool (deviation 2, thorough) over six carrier grammars (enum-rooted, struct-rooted, epsilon+recursion, no terminals, variant-less start, unit-like start); roles: terminal enum, terminals, nonterminals, variants, named fields; name pools: the generator's own helper names and their uniquified forms, letter-less names, plus a pool harvested mechanically from the emitted text, so a helper added later enters by itself; payload type `crate::P` has no derives at all. rustc's full type and borrow check must report no error in the module.",
+         "Rust keywords and prelude items are excluded (precondition); rustc 1.95 is the judge; clashes needing three simultaneously hostile names are not reached.",
+         "DESIGN.md section 3, C05"),
+ "C06": ("E3 rustc client", "exploration",
+         "exhaustive enumeration of the presentation space; a generated client module must type-check against the emitted module and its run-time order checks must pass",
+         "All 1 690 presentations (struct / sole variant / first / middle / last variant x named / tuple / empty x <=3 fields x every used/`_` mask x terminal/nonterminal symbols x root/inner carrier; thorough adds recursive symbols, G(2,2,3,2) and seed neighbourhoods), each terminal with its own payload type. The client constructs every type with exactly the declared non-underscore fields (Box<T> for nonterminals, the declared payload type for terminals), destructures without `..`, matches every enum without wildcard, accesses struct fields from a sibling module, binds parse::<Vec<_>>, parse::<MyIter<_>> and parse::<Empty<_>> to fn(_) -> Result<Start, Option<Tok>>; at run time derive(Debug) shows field order and derive(PartialOrd) variant order.",
+         "rustc 1.95 type checker; fieldsets longer than 3 are outside the exhaustive part.",
+         "DESIGN.md section 3, C06"),
  "C01": ("E2 pda + E3 rustc-run", "model_checking",
          "explicit-state exploration of the emitted parser's configurations over input tries (model bound to code by trace replay) plus exhaustive runs of the rustc-compiled real parse",
          "Ok iff the token sequence is derivable (Earley over the declared productions), no panic, termination, payload independence. " + REAL_NOTE,
